@@ -427,7 +427,7 @@ pub fn run_conc(sc: &ConcScenario) -> Outcome {
                         }
                         w(|w| {
                             if w.close_returned {
-                                w.violate(&["C06"], "waiter-stranded-after-close", format!("caller {} is still blocked in get() after close() returned", me));
+                                w.violate(&["C06", "C02"], "waiter-stranded-after-close", format!("caller {} is still blocked in get() after close() returned", me));
                             } else {
                                 let in_env_gets = w.gets.iter().filter(|g| g.outcome.is_none() && g.in_env.is_some()).count();
                                 let in_use = w.held() + in_env_gets;
